@@ -550,6 +550,130 @@ func (c *c06) crashingBurst(g *Rng, k int) bool {
 	return c.elect(g) && c.settleAndFold()
 }
 
+// lonelyTail: the leader is cut off from both followers, receives k writes that can only reach its own log,
+// is fenced and asked to lead the next term while still cut off, and finally rejoins under another leader.
+// BecomeLeader must not return (nor may the tail be applied) before a quorum holds the tail: the call is
+// expected to time out.  The node later has its tail cut by the new leader; its database must never have
+// seen those entries (checked by the checkpoints and the restart oracle that follow).
+func (c *c06) lonelyTail(g *Rng, k int) bool {
+	sc := c.wl.c
+	old := c.leader
+	var others []string
+	for _, n := range c.names {
+		if n != old && c.live(n) && c.attached[n] {
+			others = append(others, n)
+		}
+	}
+	if len(others) != 2 || !c.settleAndFold() {
+		return !c.r.Failed()
+	}
+	// both followers must hold everything that is committed (in C07 mode a follower that needs a
+	// snapshot never catches up: snapshots bypass the strict file system and are not exercised there)
+	lv := sc.view()
+	if lv == nil {
+		return true
+	}
+	for _, o := range others {
+		v, ok := c.w.Node(o).Server.SimShardView(0)
+		if !ok || v.Wal == nil || v.HeadOffset != lv.CommitOffset || v.Wal.LastOffset() != lv.CommitOffset {
+			c.r.Count("lonely_tail_skipped_follower_behind", 1)
+			return true
+		}
+	}
+	cut := func(on bool) {
+		for _, o := range others {
+			if on {
+				c.w.Net.Partition(old, o)
+				c.w.Net.Partition(o, old)
+			} else {
+				c.w.Net.Heal(old, o)
+				c.w.Net.Heal(o, old)
+			}
+		}
+	}
+	cut(true)
+	c.wl.burstInReq = map[string]int{}
+	reqs := make([]*proto.WriteRequest, k)
+	for i := range reqs {
+		reqs[i] = c.wl.genRequest(g)
+	}
+	c.wl.burstInReq = nil
+	var wg sync.WaitGroup
+	for i := 0; i < k; i++ {
+		i := i
+		wg.Add(1)
+		sc.ctl.Go(func() {
+			defer wg.Done()
+			ctx, cancel := context.WithTimeout(context.Background(), 1500*time.Millisecond)
+			defer cancel()
+			reqs[i].Shard = &sc.shard
+			_, _ = sc.client().Write(ctx, reqs[i]) // cannot commit
+		})
+	}
+	wg.Wait()
+	c.wl.prog = append(c.wl.prog, fmt.Sprintf("lonely-tail(%d) on %s", k, old))
+	c.r.Count("lonely_tails", 1)
+	// next term: everybody is fenced (the harness reaches every node), the old leader holds the best head
+	sc.term++
+	heads := map[string]*proto.EntryId{}
+	for _, n := range append([]string{old}, others...) {
+		h, err := c.newTerm(n)
+		if err != nil {
+			c.wl.fail("elect-error", "NewTerm(%d) on %s failed: %v", sc.term, n, err)
+			return false
+		}
+		heads[n] = h
+	}
+	if better(heads[old], heads[others[0]]) && better(heads[old], heads[others[1]]) {
+		c.r.Count("lonely_tail_uncommitted", 1)
+		fm := map[string]*proto.EntryId{}
+		for _, o := range others {
+			fm[nodeInternal(o)] = heads[o]
+		}
+		ctx, cancel := context.WithTimeout(context.Background(), 3*time.Second)
+		_, err := c.coordOf(old).BecomeLeader(ctx, &proto.BecomeLeaderRequest{Namespace: sc.ns, Shard: sc.shard, Term: sc.term, ReplicationFactor: 3, FollowerMaps: fm})
+		cancel()
+		if err == nil {
+			c.r.Count("lonely_become_leader_returned", 1)
+		}
+	}
+	// the coordinator gives up on it and elects among the two it can hear acknowledge each other
+	sc.term++
+	heads = map[string]*proto.EntryId{}
+	for _, n := range append([]string{old}, others...) {
+		h, err := c.newTerm(n)
+		if err != nil {
+			c.wl.fail("elect-error", "NewTerm(%d) on %s failed: %v", sc.term, n, err)
+			return false
+		}
+		heads[n] = h
+	}
+	leader, follower := others[0], others[1]
+	if better(heads[follower], heads[leader]) {
+		leader, follower = follower, leader
+	}
+	c.attached = map[string]bool{follower: true}
+	ctx, cancel := context.WithTimeout(context.Background(), 120*time.Second)
+	defer cancel()
+	if _, err := c.coordOf(leader).BecomeLeader(ctx, &proto.BecomeLeaderRequest{Namespace: sc.ns, Shard: sc.shard, Term: sc.term, ReplicationFactor: 3,
+		FollowerMaps: map[string]*proto.EntryId{nodeInternal(follower): heads[follower]}}); err != nil {
+		c.wl.fail("become-leader-error", "BecomeLeader(term %d) on %s (head %v) failed: %v", sc.term, leader, heads[leader], err)
+		return false
+	}
+	c.leader = leader
+	sc.node = c.w.Node(leader)
+	c.wl.prog = append(c.wl.prog, fmt.Sprintf("elect %s term=%d (without %s)", leader, sc.term, old))
+	c.r.Count("elections", 1)
+	// something is written where the tail was, then the old leader comes back as a follower
+	if !c.burst(g, g.Range(1, 4)) {
+		return false
+	}
+	cut(false)
+	// (a follower whose head term is above the leader's head at election time cannot be added in that
+	// term: it rejoins through the next election)
+	return c.elect(g) && c.settleAndFold()
+}
+
 func listFiles(dir string) string {
 	var out []string
 	_ = filepath.Walk(dir, func(p string, info os.FileInfo, err error) error {
@@ -733,6 +857,11 @@ func runReplicas(r *Run, prop string) {
 					k = 3 // session
 				case k < 73:
 					k = 7
+				case k < 79:
+					if !c.lonelyTail(gi, gi.Range(1, 4)) {
+						return
+					}
+					continue
 				default:
 					k = 99 // single write
 					if gi.Chance(15) {
@@ -842,6 +971,10 @@ func runReplicas(r *Run, prop string) {
 				c.checkpoint(fmt.Sprintf("checkpoint after op %d", i), gi.Chance(50))
 			case k < 62:
 				time.Sleep(time.Duration(gi.Range(1, 3000)) * time.Millisecond)
+			case k < 66 && !c07 && c.started["n3"]: // a tail that only the cut-off leader holds (see lonelyTail)
+				if !c.lonelyTail(gi, gi.Range(1, 4)) {
+					return
+				}
 			default:
 				if !wl.doWrite(wl.genRequest(gi)) {
 					return
